@@ -476,6 +476,7 @@ Section Frag.
     | ListV item ps [] None =>
         frag item && forallb count_frag ps
         && strs_unique (lit "type" :: lit "items" :: map fst (flat_entries ps))
+    | NTupleV fields None (Some CoTupleOrList) => forallb frag fields
     | OptionalV (NoneV None) inner => frag inner
     | CacheV inner => frag inner
     | _ => false
@@ -484,6 +485,7 @@ Section Frag.
   Fixpoint vheight (v : validator) : nat :=
     match v with
     | ListV item _ _ _ => S (vheight item)
+    | NTupleV fields _ _ => S (list_max (map vheight fields))
     | OptionalV _ inner => S (vheight inner)
     | CacheV inner => S (vheight inner)
     | _ => O
@@ -537,6 +539,34 @@ Section Frag.
     { rewrite forallb_obj_set by (intros v'; reflexivity).
       apply forallb_ext'. intros e. apply entry_sat_kvs. intros k. apply in_props_set. }
     rewrite Hf. destruct (is_none x); [reflexivity|]. rewrite andb_false_r. reflexivity.
+  Qed.
+
+  (* ---------- children of an n-tuple ---------- *)
+
+  Definition child_agree (n : nat) (f : validator) (j : json) : Prop :=
+    forall x, is_json x = true -> agree (sat j x) (run E Sync n f x).
+
+  Lemma collect_items_agree2 n : forall fields js xs i,
+      Forall2 (child_agree n) fields js -> List.length xs = List.length fields -> forallb is_json xs = true ->
+      exists ws errs,
+        collect_items i (run_calls false (run E Sync n) (combine fields xs)) = inr (ws, errs) /\
+        (match errs with [] => true | _ => false end) = prefix_sat sat js xs.
+  Proof.
+    intros fields js xs i HF. revert xs i. induction HF as [|f j fields js Hfj HF IH]; intros xs i Hl Hj.
+    - destruct xs; [|discriminate]. cbn. eexists; eexists; split; reflexivity.
+    - destruct xs as [|x xs]; [discriminate|]. cbn [forallb] in Hj. apply andb_prop in Hj. destruct Hj as [Hx Hxs].
+      cbn [combine run_calls prefix_sat]. pose proof (Hfj x Hx) as Ha.
+      destruct (IH xs (S i) ltac:(cbn in Hl; lia) Hxs) as [ws [errs [E1 E2]]].
+      destruct (sat j x); cbn [agree] in Ha; destruct Ha as [w ->]; cbn [collect_items]; rewrite E1.
+      + eexists; eexists; split; [reflexivity|]. cbn [andb]. exact E2.
+      + eexists; eexists; split; [reflexivity|]. reflexivity.
+  Qed.
+
+  Lemma list_max_lt (l : list nat) n x : (list_max l < n)%nat -> In x l -> (x < n)%nat.
+  Proof.
+    induction l as [|y l IH]; cbn [list_max fold_right In]; intros H Hin; [destruct Hin|].
+    unfold list_max in *. cbn [fold_right] in H.
+    destruct Hin as [->|Hin]; [lia | apply IH; [lia | exact Hin]].
   Qed.
 
   Theorem frag_agree : forall v,
@@ -604,6 +634,49 @@ Section Frag.
         rewrite Ej in Ej'. injection Ej' as <-. exact Hj'. }
       destruct (collect_items_agree (run E Sync n) v (sat (JObj dj)) xs 0%nat Hitems) as [ws [errs [C1 C2]]].
       rewrite C1, <- C2. destruct errs; cbn [agree]; eexists; reflexivity.
+    - (* NTupleV *)
+      destruct vobj; try discriminate. destruct co as [[]|]; try discriminate.
+      cbn [vheight] in Hn.
+      assert (Hjs : exists js, many_of (Schema.to_schema text_of named) fields = Ok js /\
+                               List.length js = List.length fields /\
+                               Forall2 (child_agree n) fields js).
+      { assert (Hall : forall f, In f fields -> (vheight f < n)%nat).
+        { intros f Hin. apply (list_max_lt (map vheight fields) n (vheight f)); [lia | apply in_map; exact Hin]. }
+        clear x Hx Hn. revert Hf Hall. induction H as [|f fs Hf0 HFs IHfs]; intros Hf Hall.
+        - exists []. repeat split; constructor.
+        - cbn [forallb] in Hf. apply andb_prop in Hf. destruct Hf as [Hff Hffs].
+          destruct (Hf0 Hff (S (vheight f)) (Nat.lt_succ_diag_r _) VNone eq_refl) as [d0 [Ed0 _]].
+          destruct (IHfs Hffs (fun g Hg => Hall g (or_intror Hg))) as [js [Ejs [Hlen HF2]]].
+          exists (JObj d0 :: js). cbn [many_of]. rewrite Ed0. cbn [pbind]. fold (many_of (Schema.to_schema text_of named)).
+          rewrite Ejs. cbn [pbind]. split; [reflexivity|]. split; [cbn; rewrite Hlen; reflexivity|].
+          constructor; [|exact HF2]. intros x Hx. destruct (Hf0 Hff n (Hall f (or_introl eq_refl)) x Hx) as [d1 [Ed1 Ha]].
+          rewrite Ed0 in Ed1. injection Ed1 as <-. exact Ha. }
+      destruct Hjs as [js [Ejs [Hlen HF2]]].
+      change (Schema.to_schema text_of named (NTupleV fields None (Some CoTupleOrList)))
+        with (pbind (many_of (Schema.to_schema text_of named) fields) (fun js =>
+              let k := Z.of_nat (List.length fields) in
+              Ok (JObj [(lit "description", JStr (text text_of TkNtuple (VInt k)));
+                        (lit "type", JStr (lit "array")); (lit "additionalItems", JBool false);
+                        (lit "maxItems", JInt k); (lit "minItems", JInt k);
+                        (lit "prefixItems", JArr js)]))).
+      rewrite Ejs. cbn [pbind]. eexists; split; [reflexivity|].
+      cbn [SchemaSat.sat]. unfold nullable. rewrite obj_get_none by reflexivity. cbn [andb orb forallb].
+      unfold entry_sat. kwd.
+      unfold ntuple_body. cbn [gate coerce_apply].
+      destruct x; try discriminate; try (cbn; eexists; reflexivity).
+      cbn [pred_eval py_len unsub pbind py_iter]. change (type_sat (lit "array") (VList xs)) with true. cbn [andb].
+      unfold zlen. rewrite andb_true_r.
+      destruct (Z.eqb_spec (Z.of_nat (List.length xs)) (Z.of_nat (List.length fields))) as [Heq|Hne].
+      + assert (Hl : List.length xs = List.length fields) by lia.
+        cbn [is_json] in Hx.
+        destruct (collect_items_agree2 n fields js xs 0%nat HF2 Hl Hx) as [ws [errs [C1 C2]]].
+        rewrite C1, <- C2. rewrite Heq, Z.leb_refl. cbn [andb].
+        destruct errs; cbn [agree obj_stage]; eexists; reflexivity.
+      + assert (Hb : (Z.of_nat (List.length xs) <=? Z.of_nat (List.length fields))
+                     && ((Z.of_nat (List.length fields) <=? Z.of_nat (List.length xs)) && prefix_sat sat js xs) = false).
+        { destruct (Z.leb_spec (Z.of_nat (List.length xs)) (Z.of_nat (List.length fields))); [|reflexivity].
+          destruct (Z.leb_spec (Z.of_nat (List.length fields)) (Z.of_nat (List.length xs))); [lia | reflexivity]. }
+        rewrite Hb. cbn [agree]. eexists; reflexivity.
     - (* OptionalV *)
       destruct v1; try discriminate. destruct co; try discriminate.
       cbn [vheight] in Hn. destruct n as [|n]; [lia|].
